@@ -291,3 +291,249 @@ Definition read (ss : sess) (n : N) : sess * rd :=
 
 (* func (c *Handle) Close() *)
 Definition close (ss : sess) : sess := set_closed ss.
+
+(* ====================================================================================== *)
+(* Specification-level definitions used by the theorems of Properties/C03.v and C15.v     *)
+(* ====================================================================================== *)
+
+Section Spec.
+  Variable seal : bytes -> bytes -> bytes -> bytes.
+  Variable open : bytes -> bytes -> bytes -> option bytes.
+
+  (* every check of readPacketLocked that does not involve the key *)
+  Definition wf_header (ss : sess) (pkt : bytes) : bool :=
+    (48 <=? len pkt) &&
+    ((pkt_type pkt =? mt_transport) || (pkt_type pkt =? mt_control)) &&
+    (nth 1 pkt 0 =? 0) && (nth 2 pkt 0 =? 0) && (nth 3 pkt 0 =? 0) &&
+    beq_bytes (sid ss) (pkt_sid pkt) &&
+    check (window ss) (pkt_counter pkt).
+
+  (* "the datagram authenticates": the session is open, the header is well formed for this session,
+     its counter passes the replay filter and SANSE opens the body under the session's read key with
+     the 16 header bytes as associated data *)
+  Definition opens (ss : sess) (pkt : bytes) : option bytes :=
+    if closed ss then None
+    else if negb (wf_header ss pkt) then None
+    else match key_recv ss with
+         | None => None
+         | Some k => open k (pkt_ad pkt) (pkt_body pkt)
+         end.
+
+  (* what an authentic fresh datagram of type t, counter c, plaintext p from address a does *)
+  Definition apply_auth (ss : sess) (a : addr) (t c : N) (p : bytes) : sess * outcome :=
+    let ss1 := set_window ss (mark (window ss) c) in
+    if t =? mt_transport then
+      if qlen (queue ss1) <? qcap ss1
+      then (set_remote (set_queue ss1 (queue ss1 ++ [p])) a, ODelivered)
+      else (set_remote ss1 a, OQueueFull)
+    else if (len p =? 1) && (nth 0 p 0 =? ctrl_close)
+         then (set_remote (set_closed ss1) a, OCtrlClose)
+         else (set_closed ss1, OCtrlBad).
+
+  (* ---- histories of one endpoint session: datagrams from the network interleaved with local calls ---- *)
+  Inductive ev :=
+  | EvIn (a : addr) (pkt : bytes)      (* a datagram arrives (any bytes, any source) *)
+  | EvReadMsg (n : N)
+  | EvRead (n : N)
+  | EvSend (mt : N) (m : bytes)        (* Handle.send: WriteMsg is EvSend mt_transport after its size check *)
+  | EvWrite (b : bytes)
+  | EvClose.
+
+  Inductive eobs :=
+  | ObIn (o : outcome)
+  | ObRd (r : rd)
+  | ObSent (ds : list dgram) (n : N) (err : bool)
+  | ObNone
+  | ObPanic.
+
+  Definition ep_step (max : N) (ss : sess) (e : ev) : sess * eobs :=
+    match e with
+    | EvIn a pkt =>
+      match session_input open ss a pkt with
+      | Ok (ss', o) => (ss', ObIn o)
+      | _ => (ss, ObPanic)
+      end
+    | EvReadMsg n => let '(s', r) := read_msg ss n in (s', ObRd r)
+    | EvRead n => let '(s', r) := read ss n in (s', ObRd r)
+    | EvSend mt m =>
+      match send seal ss mt m with
+      | Ok (ss', d) => (ss', ObSent [d] (len m) false)
+      | Err => (ss, ObSent [] 0 true)
+      | Panic => (ss, ObPanic)
+      end
+    | EvWrite b =>
+      match write seal max ss b with
+      | Some w => if w_panic w then (w_ss w, ObPanic) else (w_ss w, ObSent (w_out w) (w_n w) (w_err w))
+      | None => (ss, ObPanic)
+      end
+    | EvClose => (close ss, ObNone)
+    end.
+
+  Fixpoint ep_run (max : N) (ss : sess) (evs : list ev) : sess * list eobs :=
+    match evs with
+    | [] => (ss, [])
+    | e :: r => let '(s1, o) := ep_step max ss e in
+                let '(s2, os) := ep_run max s1 r in (s2, o :: os)
+    end.
+
+  (* ghost projections of a history *)
+  (* counters of the datagrams that passed every check, oldest first *)
+  Fixpoint accepted (max : N) (ss : sess) (evs : list ev) : list N :=
+    match evs with
+    | [] => []
+    | e :: r =>
+      let '(s1, o) := ep_step max ss e in
+      match e, o with
+      | EvIn _ pkt, ObIn oc => if outcome_authentic oc then pkt_counter pkt :: accepted max s1 r else accepted max s1 r
+      | _, _ => accepted max s1 r
+      end
+    end.
+  (* (counter, message) of the datagrams put on the receive queue, oldest first *)
+  Fixpoint delivered (max : N) (ss : sess) (evs : list ev) : list (N * bytes) :=
+    match evs with
+    | [] => []
+    | e :: r =>
+      let '(s1, o) := ep_step max ss e in
+      match e, o with
+      | EvIn _ pkt, ObIn ODelivered =>
+        match opens ss pkt with
+        | Some p => (pkt_counter pkt, p) :: delivered max s1 r
+        | None => delivered max s1 r
+        end
+      | _, _ => delivered max s1 r
+      end
+    end.
+  (* hypothesis of the at-most-once theorem (the property's bound on counters): every datagram of the
+     history that SANSE opens under the read key kr carries a counter below 2^63 *)
+  Definition auth_below (kr : option bytes) (evs : list ev) : Prop :=
+    Forall (fun e => match e with
+                     | EvIn _ pkt => forall k p, kr = Some k -> open k (pkt_ad pkt) (pkt_body pkt) = Some p ->
+                                                 pkt_counter pkt < 2 ^ 63
+                     | _ => True
+                     end) evs.
+
+  (* the bytes the reader has been given, in order *)
+  Fixpoint read_bytes (os : list eobs) : bytes :=
+    match os with
+    | [] => []
+    | ObRd (RData b) :: r => b ++ read_bytes r
+    | _ :: r => read_bytes r
+    end.
+  (* the address the session would send to, judged from the history alone: source of the last
+     datagram that passed every check and reached the handler's tail, else the initial address *)
+  Fixpoint addr_spec (max : N) (ss : sess) (evs : list ev) (cur : addr) : addr :=
+    match evs with
+    | [] => cur
+    | e :: r =>
+      let '(s1, o) := ep_step max ss e in
+      match e, o with
+      | EvIn a _, ObIn oc => addr_spec max s1 r (if outcome_accepted oc then a else cur)
+      | _, _ => addr_spec max s1 r cur
+      end
+    end.
+
+  (* a faithful network: datagrams handed to the peer in order, unchanged, from one address *)
+  Fixpoint feed (B : sess) (a : addr) (pkts : list bytes) : res (sess * list outcome) :=
+    match pkts with
+    | [] => Ok (B, [])
+    | p :: r =>
+      match session_input open B a p with
+      | Ok (B', o) =>
+        match feed B' a r with
+        | Ok (B'', os) => Ok (B'', o :: os)
+        | Err => Err
+        | Panic => Panic
+        end
+      | Err => Err
+      | Panic => Panic
+      end
+    end.
+
+  (* sender A and receiver B are the two ends of one direction of a session, and B has seen nothing
+     at or above A's next counter *)
+  Definition in_sync (A B : sess) : Prop :=
+    closed A = false /\ closed B = false /\ key_recv B = Some (key_send A) /\ sid B = sid A /\
+    len (sid A) = 4 /\ wt (window B) <= count A /\ check (window B) (count A) = true.
+
+  (* ---- several endpoints, one adversary: the system the authenticity theorem quantifies over ---- *)
+  (* ghost record of one honest call of SANSE.Seal *)
+  Record entry := mkEntry {
+    en_who : nat; en_mt : N; en_sid : bytes; en_ctr : N;   (* who sealed, and the header fields it used *)
+    en_key : bytes; en_ad : bytes; en_pt : bytes; en_ct : bytes }.
+
+  Record sys := mkSys {
+    eps : nat -> sess;                       (* the honest endpoints' sessions *)
+    slog : list entry;                       (* ghost: honest seals so far, newest first *)
+    dlog : list (nat * N * N * bytes)        (* ghost: (receiver, type, counter, plaintext) of accepted datagrams *)
+  }.
+
+  Definition upd_ep (f : nat -> sess) (i : nat) (s : sess) : nat -> sess :=
+    fun n => if Nat.eqb n i then s else f n.
+
+  Inductive sev :=
+  | SSend (i : nat) (mt : N) (m : bytes)         (* endpoint i seals and sends m; the adversary gets the datagram *)
+  | SIn (j : nat) (a : addr) (pkt : bytes)       (* the adversary hands ANY bytes to endpoint j from any address *)
+  | SLocal (j : nat) (e : ev).                   (* reads, close (EvIn/EvSend/EvWrite are ignored here) *)
+
+  Definition sys_step (st : sys) (e : sev) : sys :=
+    match e with
+    | SSend i mt m =>
+      let s := eps st i in
+      match send seal s mt m with
+      | Ok (s', _) =>
+        let ad := take ad_len (header mt (sid s) (count s)) in
+        mkSys (upd_ep (eps st) i s')
+              (mkEntry i mt (sid s) (count s) (key_send s) ad m (seal (key_send s) ad m) :: slog st)
+              (dlog st)
+      | _ => st
+      end
+    | SIn j a pkt =>
+      let s := eps st j in
+      match session_input open s a pkt with
+      | Ok (s', o) =>
+        mkSys (upd_ep (eps st) j s') (slog st)
+              (if outcome_authentic o
+               then match opens s pkt with
+                    | Some p => (j, pkt_type pkt, pkt_counter pkt, p) :: dlog st
+                    | None => dlog st
+                    end
+               else dlog st)
+      | _ => st
+      end
+    | SLocal j e =>
+      match e with
+      | EvReadMsg _ | EvRead _ | EvClose =>
+        mkSys (upd_ep (eps st) j (fst (ep_step 1 (eps st j) e))) (slog st) (dlog st)
+      | _ => st
+      end
+    end.
+
+  Definition sys_run (st : sys) (evs : list sev) : sys := fold_left sys_step evs st.
+
+  (* counters of the datagrams endpoint j accepted, newest first *)
+  Fixpoint dlog_ctrs (j : nat) (dl : list (nat * N * N * bytes)) : list N :=
+    match dl with
+    | [] => []
+    | (j', _, c, _) :: r => if Nat.eqb j' j then c :: dlog_ctrs j r else dlog_ctrs j r
+    end.
+
+  (* a well-formed initial configuration: 4-byte session ids, fresh replay windows, empty ghost logs, and
+     send counters that stay below 2^63 for the n events to come (the property's bound on counters) *)
+  Definition sys_init_ok (st : sys) (n : nat) : Prop :=
+    slog st = [] /\ dlog st = [] /\
+    forall i, len (sid (eps st i)) = 4 /\ window (eps st i) = win_init /\ count (eps st i) + N.of_nat n < 2 ^ 63.
+
+  (* symbolic INT-CTXT along a run: whenever a datagram handed to endpoint j opens under j's read key,
+     that exact (key, associated data, plaintext, ciphertext) was produced by an honest Seal earlier in the run *)
+  Fixpoint int_ctxt_run (st : sys) (evs : list sev) : Prop :=
+    match evs with
+    | [] => True
+    | e :: r =>
+      match e with
+      | SIn j a pkt =>
+        forall k p, key_recv (eps st j) = Some k -> open k (pkt_ad pkt) (pkt_body pkt) = Some p ->
+          exists en, In en (slog st) /\ en_key en = k /\ en_ad en = pkt_ad pkt /\ en_pt en = p /\ en_ct en = pkt_body pkt
+      | _ => True
+      end /\ int_ctxt_run (sys_step st e) r
+    end.
+End Spec.
